@@ -5,12 +5,14 @@ package main
 // failing / closed / never-started sinks for every appender kind.
 
 import (
+	"bytes"
 	"errors"
 	"fmt"
 	"hash/crc32"
 	"os"
 	"os/signal"
 	"path/filepath"
+	"sort"
 	"strings"
 	"sync"
 	"sync/atomic"
@@ -266,6 +268,9 @@ func c19Outage(w *W) {
 	var mu sync.Mutex
 	var recs []c13rec
 	var wg sync.WaitGroup
+	var lookBad atomic.Bool
+	var looks atomic.Int64
+	defer func() { w.Count("looks_for_the_line_right_after_a_write_returned", looks.Load()) }()
 	for g := 0; g < W; g++ {
 		wg.Add(1)
 		go func(g int) {
@@ -295,6 +300,17 @@ func c19Outage(w *W) {
 				mu.Lock()
 				recs = append(recs, rc)
 				mu.Unlock()
+				if !async && g == 0 && i%4 == 0 && !lookBad.Load() {
+					// "keeps writing to the file it already has": when the synchronous Write has returned, the line is in a file -
+					// in the directory, or in the directory as it is called during an outage (descriptors survive the rename)
+					looks.Add(1)
+					if c19lineNowhere(id, dir, away) {
+						time.Sleep(5 * time.Millisecond) // the directory may have been renamed between the two listings
+						if c19lineNowhere(id, dir, away) && lookBad.CompareAndSwap(false, true) {
+							w.Violate("C19:write-in-no-file-at-return", fmt.Sprintf("[%s] Write of %s returned at %s and the line is in no file, neither in the log directory nor in the directory moved aside (it may be written later; a reader of the file, or a crash, would not see it)", pl.Name, id, rc.end.Format("15:04:05.000")), cs)
+						}
+					}
+				}
 				if async {
 					if i%1500 == 0 { // bursts of 1500 back-to-back writes keep the 100-slot queue full
 						time.Sleep(4 * time.Millisecond)
@@ -945,4 +961,43 @@ func init() {
 			d.Extra["fault_placements"] = len(pls)
 		},
 	})
+}
+
+// c19lineNowhere reports true only if every named directory could be listed (or does not exist), every candidate file could
+// be read, and none of the newest three files of any of them holds the line. Anything undecidable counts as "not nowhere".
+func c19lineNowhere(id string, dirs ...string) bool {
+	needle := []byte(id + "|")
+	for _, d := range dirs {
+		st, err := os.Stat(d)
+		if err != nil {
+			if os.IsNotExist(err) {
+				continue
+			}
+			return false
+		}
+		if !st.IsDir() {
+			continue
+		}
+		ents, err := os.ReadDir(d)
+		if err != nil {
+			return false
+		}
+		var names []string
+		for _, e := range ents {
+			if !e.IsDir() {
+				names = append(names, e.Name())
+			}
+		}
+		sort.Strings(names)
+		for k := len(names) - 1; k >= 0 && k >= len(names)-3; k-- {
+			b, err := os.ReadFile(filepath.Join(d, names[k]))
+			if err != nil {
+				return false
+			}
+			if bytes.Contains(b, needle) {
+				return false
+			}
+		}
+	}
+	return true
 }
